@@ -103,8 +103,12 @@ def handle : List String → Option String
       if what == "sup" then some (showVerdict (isOperatorSupported d))
       else if what == "sem" then some (showVerdict (isOperatorSemanticValid d))
       else if what == "run" then some (showVerdict (runOnNpu d))
+      else if what == "place" then
+        let (v, ms) := placeModel d
+        some (showVerdict v ++ " via=" ++ (if ms.isEmpty then "-" else ",".intercalate ms))
       else if what == "doc" then some (Spec.showDocVerdict (Spec.documented Spec.freshReport d))
-      else if what == "docc" then some (Spec.showDocVerdict (Spec.documented Spec.committedReport d))
+      else if what == "docc" then
+        some (Spec.showDocVerdict (Spec.documented Spec.committedReport d) ++ " ext=" ++ ofName (Spec.extName d))
       else some "err:what"
   | ["c16lists", ty] =>
     some ("sem=" ++ ",".intercalate ((semListed (toName ty)).map ofName) ++ " sup=" ++ ",".intercalate ((supListed (toName ty)).map ofName))
